@@ -371,8 +371,14 @@ class Tr(object):
                 x = self.fresh()
                 return pre + p2 + [(x, "(dget %s %s)" % (t2, t))], x, ty[1]
             refuse(e, "subscript of a value of type %s" % (ty,))
+        if isinstance(e, ast.BinOp) and isinstance(e.op, ast.Add):
+            p1, t1, y1 = self.expr(e.left, env)
+            p2, t2, y2 = self.expr(e.right, env)
+            if y1 != "str" or y2 != "str":
+                refuse(e, "+ on %s and %s" % (y1, y2))
+            return p1 + p2, "(String.append %s %s)" % (t1, t2), "str"
         if isinstance(e, ast.UnaryOp) and isinstance(e.op, ast.Not):
-            pre, t, ty = self.expr(e.operand, env)
+            pre, t, ty = self.as_bool(e.operand, env)
             if ty != "bool":
                 refuse(e, "not of a %s" % (ty,))
             return pre, "(negb %s)" % t, "bool"
@@ -412,7 +418,7 @@ class Tr(object):
     def boolop(self, node, values, env):
         first, rest = values[0], values[1:]
         if not rest:
-            pre, t, ty = self.expr(first, env)
+            pre, t, ty = self.as_bool(first, env)
             if ty != "bool":
                 refuse(node, "operand of type %s" % (ty,))
             return pre, t, ty
@@ -426,7 +432,7 @@ class Tr(object):
             env2[x] = env[x][1]
             p2, t2, _ = self.boolop(node, rest, env2)
             return [], "match v_%s with Some v_%s => %s | None => Some false end" % (x, x, wrap(p2, "ret %s" % t2)), "mbool"
-        p1, t1, y1 = self.expr(first, env)
+        p1, t1, y1 = self.as_bool(first, env)
         if y1 != "bool":
             refuse(node, "operand of type %s" % (y1,))
         p2, t2, y2 = self.boolop(node, rest, env)
@@ -437,9 +443,18 @@ class Tr(object):
             return p1, "(if %s then Some true else %s)" % (t1, inner), "mbool"
         return p1, "(%s %s %s)" % (t1, "&&" if isinstance(node.op, ast.And) else "||", t2), "bool"
 
+    def as_bool(self, e, env):
+        """an expression in a boolean position: Python truthiness of lists, dicts and strings"""
+        pre, t, ty = self.expr(e, env)
+        if is_k(ty, "list") or is_k(ty, "dict"):
+            return pre, "(negb (Nat.eqb (List.length %s) 0))" % t, "bool"
+        if ty == "str":
+            return pre, '(negb (String.eqb %s ""))' % t, "bool"
+        return pre, t, ty
+
     def pure_bool(self, e, env):
         """a condition: (pre, text : bool)"""
-        pre, t, ty = self.expr(e, env)
+        pre, t, ty = self.as_bool(e, env)
         if ty == "mbool":
             x = self.fresh("c")
             return pre + [(x, "(%s)" % t)], x
@@ -651,6 +666,11 @@ class Tr(object):
         if isinstance(s, ast.Assign):
             if len(s.targets) != 1:
                 refuse(s, "chained assignment")
+            if isinstance(s.value, ast.IfExp):        # x = a if c else b  is  if c: x = a else: x = b
+                v = s.value
+                a1 = ast.copy_location(ast.Assign(targets=s.targets, value=v.body), s)
+                a2 = ast.copy_location(ast.Assign(targets=s.targets, value=v.orelse), s)
+                return self.if_(ast.copy_location(ast.If(test=v.test, body=[a1], orelse=[a2]), s), env, rest, tail)
             return self.assign(s, s.targets[0], s.value, env, cont)
         if isinstance(s, ast.Expr) and isinstance(s.value, ast.Call):
             return self.effect(s, s.value, env, cont)
@@ -659,6 +679,12 @@ class Tr(object):
                 refuse(s, "del outside the grammar")
             t = s.targets[0]
             rd, ty, setter, _ = self.place(t.value, env)
+            if is_k(ty, "list") and isinstance(t.value, ast.Name) and isinstance(t.slice, ast.UnaryOp) \
+                    and isinstance(t.slice.op, ast.USub) and isinstance(t.slice.operand, ast.Constant) \
+                    and t.slice.operand.value == 1:
+                env2 = dict(env)
+                env2.pop("#alias:" + t.value.id, None)
+                return wrap([("'(_, %s)" % rd, "(pop_ %s)" % rd)], cont(env2))
             if not is_k(ty, "dict"):
                 refuse(s, "del on a %s" % (ty,))
             pk, tk, yk = self.expr(t.slice, env)
@@ -719,6 +745,7 @@ class Tr(object):
 
     def assign(self, s, target, value, env, cont):
         if isinstance(target, ast.Name) or isinstance(target, ast.Tuple):
+            popped = None
             # x = l.pop() / d.popleft()
             if isinstance(value, ast.Call) and isinstance(value.func, ast.Attribute) \
                     and value.func.attr in ("pop", "popleft") and not value.args and not value.keywords:
@@ -728,11 +755,19 @@ class Tr(object):
                 x = self.fresh()
                 pre = [("'(%s, %s)" % (x, rd), "(%s_ %s)" % (value.func.attr, rd))]
                 t, vt = x, ty[1]
+                popped = value.func.value.id
             else:
                 pre, t, vt = self.expr(value, env)
                 if vt == "mbool":
                     refuse(s, "assignment of a condition with effects")
             env2 = dict(env)
+            if popped is not None:
+                env2.pop("#alias:" + popped, None)
+            if vt not in ("nat", "bool", "str", "ty", "cst", "arity"):
+                # the new name may share a (mutable) item of a list whose items are changed in place
+                for x in ast.walk(value):
+                    if isinstance(x, ast.Subscript) and isinstance(x.value, ast.Name) and x.value.id in self.fresh_item_lists:
+                        env2["#alias:" + x.value.id] = True
             if isinstance(target, ast.Name):
                 if any(target.id in lp.state for lp in self.loops) or True:
                     pass
@@ -755,9 +790,14 @@ class Tr(object):
                 x = self.fresh()
                 return wrap(pv + pi + [(x, "(setitem_ %s %s %s)" % (rd, ti, tv)), setter(x)], cont(env))
             if is_k(ty, "dict"):
+                if yv == "compiled" and ty[1] in ("obj", "?"):     # a compiled tree stored in a dict is the object obj_of
+                    tv, yv = "(obj_of cval %s)" % tv, "obj"
                 if yi != "str" or unify(ty[1], yv) is None:
                     refuse(s, "entry assignment of %s at %s in %s" % (yv, yi, ty))
-                return wrap(pv + pi + [setter("(dset %s %s %s)" % (ti, tv, rd))], cont(env))
+                env2 = dict(env)
+                if isinstance(target.value, ast.Name):
+                    env2[base] = D(unify(ty[1], yv))
+                return wrap(pv + pi + [setter("(dset %s %s %s)" % (ti, tv, rd))], cont(env2))
             refuse(s, "item assignment on a %s" % (ty,))
         if isinstance(target, ast.Attribute) and target.attr == "value" and isinstance(target.value, ast.Subscript):
             # m[k].value = e : the object found in the mapping is changed in place (its state lives in the pset)
@@ -775,6 +815,11 @@ class Tr(object):
 
     def effect(self, s, c, env, cont):
         f = c.func
+        if isinstance(f, ast.Attribute) and f.attr == "reverse" and not c.args and not c.keywords:
+            rd, ty, setter, base = self.place(f.value, env)
+            if not is_k(ty, "list"):
+                refuse(s, "reverse on a %s" % (ty,))
+            return wrap([setter("(reversed_ %s)" % rd)], cont(env))
         if not isinstance(f, ast.Attribute) or c.keywords or len(c.args) != 1 or isinstance(c.args[0], ast.Starred):
             refuse(s, "call statement outside the grammar")
         m, recv, arg = f.attr, f.value, c.args[0]
@@ -789,7 +834,8 @@ class Tr(object):
                 refuse(s, "in-place change outside the grammar")
             name = inner.value.id
             ty = env.get(name)
-            if name not in self.fresh_item_lists or not is_k(ty, "list") or not is_k(ty[1], "pair"):
+            if name not in self.fresh_item_lists or not is_k(ty, "list") or not is_k(ty[1], "pair") \
+                    or env.get("#alias:" + name):
                 refuse(s, "in-place change of an item of %s, which may be shared" % name)
             k = recv.slice.value
             comp = ty[1][1 + k]
@@ -918,6 +964,10 @@ class Tr(object):
                 continue
             jenv[v] = u
             jvars.append(v)
+        for e2 in ends:
+            for mk in e2:
+                if mk.startswith("#"):
+                    jenv[mk] = True
         k = self.fresh("k")
 
         def join(e2):
@@ -928,22 +978,33 @@ class Tr(object):
             k, self.pat(jvars), rest_txt, c, self.block(s.body, env, join), self.block(s.orelse, env, join)))
 
     def loop_state(self, s, env, extra_targets):
-        st = sorted(v for v in names_assigned(s.body) if v in env and v not in extra_targets)
+        """names the body changes that exist before the loop, in the order of their first binding in the function
+        (so that renaming a local does not permute the state)"""
+        st = sorted((v for v in names_assigned(s.body) if v in env and v not in extra_targets),
+                    key=lambda v: self.order.get(v, (0, 0, v)))
         return st
 
     def run_loop(self, s, env, state, make):
         """translate the loop body until the types of the loop state are stable; make(loop, env_in) -> text"""
         types = {v: env[v] for v in state}
-        for _ in range(4):
+        marks = set(k for k in env if k.startswith("#"))
+        for _ in range(6):
             lp = Loop(state, types)
             self.loops.append(lp)
             saved = self.n
             try:
                 env_in = dict(env)
                 env_in.update(types)
+                for mk in marks:
+                    env_in[mk] = True
                 txt = make(lp, env_in)
             finally:
                 self.loops.pop()
+            seen_marks = set(k for e2 in lp.seen for k in e2 if k.startswith("#"))
+            if not seen_marks <= marks:
+                marks |= seen_marks
+                self.n = saved
+                continue
             new = dict(types)
             for e2 in lp.seen:
                 for v in state:
@@ -952,6 +1013,9 @@ class Tr(object):
                         refuse(s, "%s changes its type in the loop" % v)
                     new[v] = u
             if new == types:
+                types = dict(types)
+                for mk in marks:
+                    types[mk] = True
                 return txt, types
             types = new
             self.n = saved
@@ -991,6 +1055,9 @@ class Tr(object):
             ipre, itxt, ity = self.expr(it, env)
             if not is_k(ity, "list"):
                 refuse(s, "iteration over a %s" % (ity,))
+            for x in ast.walk(it):
+                if isinstance(x, ast.Name) and x.id in self.fresh_item_lists:
+                    self.fresh_item_lists.discard(x.id)
             for v in names_read([it]):
                 if v in state:
                     refuse(s, "the iterated value depends on %s, which the body changes" % v)
@@ -1057,7 +1124,7 @@ class Tr(object):
             refuse(s, "while-else")
         if "fuel" not in self.sig:
             refuse(s, "no fuel declared for a while loop of this function")
-        state = sorted(set(self.loop_state(s, env, [])) | (names_read([s.test]) & set(env) & names_assigned(s.body)))
+        state = self.loop_state(s, env, [])
         fuel = self.sig["fuel"]
 
         def make(lp, env_in):
@@ -1102,6 +1169,21 @@ class Tr(object):
                 refuse(fd, "decorator")
         env = dict(sig["env"])
         self.live_out = set()
+        self.order = {}
+        for n in ast.walk(fd):
+            tg = []
+            if isinstance(n, ast.Assign):
+                tg = n.targets
+            elif isinstance(n, ast.For):
+                tg = [n.target]
+            elif isinstance(n, ast.Expr) and isinstance(n.value, ast.Call):
+                tg = [n.value.func]
+            for t in tg:
+                for x in ast.walk(t):
+                    if isinstance(x, ast.Name):
+                        pos = (n.lineno, n.col_offset, x.id)
+                        if x.id not in self.order or pos < self.order[x.id]:
+                            self.order[x.id] = pos
         # local lists whose items are only created by fresh displays (so that an item can be changed in place)
         self.fresh_item_lists = set()
         for n in ast.walk(fd):
@@ -1185,8 +1267,8 @@ def translate_source(src, forced=None):
                 (sig["cls"] + "." if sig["cls"] else ""), sig["py"], str(r).replace("*)", "* )").replace("(*", "( *"),
                 g, sig["coq_params"], sig["placeholder"]))
             status[g] = r
-        except RecursionError as e:  # noqa
-            r = Refuse("Module", "translator error %r" % (e,))
+        except Exception as e:  # noqa  (a translator fault on this function is a refusal of this function: fail closed)
+            r = Refuse("Module", "translator error %s: %s" % (type(e).__name__, e))
             out.append("(* REFUSED: %s *)\nDefinition %s %s :=\n %s.\n" % (r, g, sig["coq_params"], sig["placeholder"]))
             status[g] = r
     trailer = os.path.join(os.path.dirname(os.path.abspath(__file__)), "c12_gen_trailer.v.in")
